@@ -10,10 +10,11 @@ value is accepted iff it has the declared value type.
 """
 from __future__ import annotations
 
+import ast
 import itertools
 
 from engine.absint import HI, LO, TOP, Interp, Obj, Unsupported, _Raise
-from engine.loader import AnalysisError
+from engine.loader import AnalysisError, norm
 
 # type -> how the validator recognises a well-typed value
 TABLE = {
@@ -294,3 +295,59 @@ def list_item_model(ctx, rule):
         ctx.fail(rule, f, f.node, "list-item model: %s (%d disagreeing case(s))" % (problems[0], len(problems)), key=f.qualname + "::list-item-model")
     else:
         ctx.ok(rule, f, f.node, "list-item model, %d abstract cases: a list is accepted iff every item has the declared type (instances / subclasses), whatever its position" % n)
+
+
+def rule_color_pattern(ctx, rule="R01.r"):
+    """Color: the hex test is a regular expression; its LANGUAGE is computed from the parse tree of the literal pattern
+    (re._parser.parse -- nothing is matched) over the abstract alphabet {'#', hex digit, anything else} and compared with
+    the declared value set: an optional '#' followed by exactly 3 or exactly 6 hex digits, anchored at both ends."""
+    import re as _re
+    from engine.regexlang import language, Unsupported as RxUnsupported
+    f = ctx.repo.func("param.parameters.Color._validate_allow_named")
+    HEX = frozenset("0123456789abcdefABCDEF")
+
+    def classify(chars):
+        return "H" if chars == HEX else "#" if chars == frozenset("#") else "other(%s)" % "".join(sorted(chars))[:12]
+    sites = []
+    for c in ast.walk(f.node):
+        if isinstance(c, ast.Call) and norm(c.func) in ("re.match", "re.fullmatch", "re.search", "re.compile") and c.args:
+            sites.append(c)
+    if not sites:
+        raise AnalysisError("%s: the hex test of Color._validate_allow_named is no longer a call of re.match / re.fullmatch / re.search / re.compile -- cannot decide" % rule)
+    want = {tuple(p) + ("H",) * n for p in ((), ("#",)) for n in (3, 6)}
+    for c in sites:
+        pat = c.args[0]
+        if not (isinstance(pat, ast.Constant) and isinstance(pat.value, str)):
+            raise AnalysisError("%s: the pattern of Color's hex test is not a string literal -- cannot decide" % rule)
+        flags = 0
+        for extra in list(c.args[2:]) + [k.value for k in c.keywords if k.arg == "flags"]:
+            if norm(extra) in ("re.I", "re.IGNORECASE"):
+                flags |= _re.IGNORECASE
+            else:
+                raise AnalysisError("%s: flags `%s` of Color's hex test are not modelled -- cannot decide" % (rule, norm(extra)))
+        try:
+            words, a_start, a_end = language(pat.value, classify, flags)
+        except RxUnsupported as e:
+            raise AnalysisError("%s: the pattern %r of Color's hex test is outside the bounded regex fragment (%s) -- cannot decide" % (rule, pat.value, e))
+        kind = norm(c.func)
+        start_ok = a_start or kind in ("re.match", "re.fullmatch")
+        end_ok = a_end or kind == "re.fullmatch"
+        if kind == "re.compile":
+            raise AnalysisError("%s: Color's hex pattern is compiled separately from its use -- cannot decide" % rule)
+        ctx.abstract_cases += len(words)
+        extra, missing = sorted(words - want, key=len), sorted(want - words, key=len)
+
+        def show(w):
+            return "".join("#" if x == "#" else "h" if x == "H" else "<%s>" % x for x in w)
+        if extra or missing or not start_ok or not end_ok:
+            what = []
+            if extra:
+                what.append("accepts %s (h = one hex digit)" % ", ".join(repr(show(w)) for w in extra[:4]))
+            if missing:
+                what.append("rejects %s" % ", ".join(repr(show(w)) for w in missing[:4]))
+            if not start_ok or not end_ok:
+                what.append("is not anchored at the %s" % ("start" if not start_ok else "end"))
+            ctx.fail(rule, f, c, "Color: the hex pattern %r %s; the declared value set is an optional '#' followed by exactly 3 or exactly 6 hex digits" % (pat.value, "; ".join(what)),
+                     key="param.parameters.Color::hex-language", input="param.Color() <- '#ffff'")
+        else:
+            ctx.ok(rule, f, c, "Color: the language of %r is exactly {#?hhh, #?hhhhhh} over hex digits, anchored at both ends" % pat.value)
